@@ -14,6 +14,8 @@ pub trait ContentAddrStore {}
 #[derive(Clone, Copy, PartialEq, Eq, Hash, Structural)] pub struct HashVal(pub [u8; 32]);
 impl core::ops::Deref for HashVal { type Target = [u8]; #[verifier::external_body] fn deref(&self) -> (r: &[u8]) ensures r@ == self.0@ { unimplemented!() } }
 pub uninterp spec fn spec_zero_hash() -> HashVal;
+/// HashVal::default() is the all-zero hash; A-HASH (preimage resistance for this one constant): no transaction hashes to it
+pub broadcast axiom fn axiom_zero_hash() ensures #[trigger] spec_zero_hash().0@ == Seq::new(32, |i: int| 0u8);
 impl HashVal {
     #[verifier::external_body] pub fn default() -> (r: HashVal) ensures r == spec_zero_hash() { unimplemented!() }
 }
@@ -233,3 +235,15 @@ pub assume_specification<'a, T: Copy> [std::option::Option::<&'a T>::copied] (o:
     ensures r == (match o { Some(x) => Some(*x), None => None::<T> });
 
 pub assume_specification<T> [core::slice::from_ref::<T>] (s: &T) -> (r: &[T]) ensures r@ == seq![*s];
+
+/// std BTreeMap (GenesisConfig::stakes): only consumed by value into its entries
+#[verifier::external_body] #[verifier::accept_recursive_types(K)] #[verifier::accept_recursive_types(V)]
+pub struct BTreeMap<K, V> { _p: core::marker::PhantomData<(K, V)> }
+impl<K, V> View for BTreeMap<K, V> { type V = Map<K, V>; uninterp spec fn view(&self) -> Map<K, V>; }
+/// `m.into_iter()` (declared substitution): the entries, each key once
+#[verifier::external_body]
+pub fn btree_into_vec<K, V>(m: BTreeMap<K, V>) -> (r: Vec<(K, V)>)
+    ensures forall|i: int| 0 <= i < r@.len() ==> m@.contains_key((#[trigger] r@[i]).0) && m@[r@[i].0] == r@[i].1,
+            forall|k: K| m@.contains_key(k) ==> exists|i: int| 0 <= i < r@.len() && (#[trigger] r@[i]).0 == k,
+            forall|i: int, j: int| 0 <= i < j < r@.len() ==> (#[trigger] r@[i]).0 != (#[trigger] r@[j]).0
+{ unimplemented!() }
